@@ -79,14 +79,23 @@ def split_arms(body):
 
 
 HOOK = re.compile(r'#\[cfg\(feature = "verif"\)\]\s*verif_faults::(\w+)\(([^;]*)\)\??;')
+# the same point when the statement behind it has an error exit with ROLLBACK: the injected failure takes that exit too
+HOOK_RB = re.compile(r'#\[cfg\(feature = "verif"\)\]\s*if let Err\(e\) = verif_faults::(\w+)\(([^;{]*)\)\s*\{\s*'
+                     r'conn\.execute\("ROLLBACK", \[\]\)\?;\s*return Err\(e\);\s*\}')
 
 
 def hooks_in(text):
-    return [(m.group(1), m.group(2)) for m in HOOK.finditer(text)]
+    found = [(m.start(), m.group(1), m.group(2)) for m in HOOK.finditer(text)] + \
+            [(m.start(), m.group(1), m.group(2)) for m in HOOK_RB.finditer(text)]
+    return [(n, a) for (_, n, a) in sorted(found)]
+
+
+def hook_exits_with_rollback(text, point):
+    return any(point in m.group(2) for m in HOOK_RB.finditer(text))
 
 
 def without_hooks(text):
-    return HOOK.sub("", text)
+    return HOOK.sub("", HOOK_RB.sub("", text))
 
 
 def norm(s):
@@ -124,8 +133,9 @@ def extract_process_batch_write(src):
         pos.append((0 if text is before else 2, ms[0].start(), name))
     pos.append((1, 0, "SLoop"))
     seq = [p[2] for p in sorted(pos)]
-    for other in re.findall(r'conn\.execute\("([A-Za-z ]+)', without_hooks(before + after)):
-        if other not in ("BEGIN TRANSACTION", "COMMIT", "PRAGMA optimize"):
+    outside = re.findall(r'conn\.execute\("([A-Za-z ]+)', without_hooks(before + after))
+    for other in outside:
+        if other not in ("BEGIN TRANSACTION", "COMMIT", "PRAGMA optimize", "ROLLBACK"):
             raise Refuse("unexpected statement outside the loop: %s" % other)
 
     def exit_of(text, call_rx):
@@ -139,6 +149,8 @@ def extract_process_batch_write(src):
 
     marks_rollback = exit_of(after, r"daily_log\.write\(conn\)")
     commit_rollback = exit_of(after, r'conn\.execute\("COMMIT", \[\]\)')
+    if outside.count("ROLLBACK") != int(marks_rollback) + int(commit_rollback):
+        raise Refuse("a ROLLBACK outside the loop that is not the error exit of daily_log.write / COMMIT")
     if not re.search(r"Ok\(\(\)\)\s*$", norm(after)):
         raise Refuse("process_batch_write does not end with Ok(())")
     # ---- arms
@@ -191,11 +203,15 @@ def extract_process_batch_write(src):
                 ("point", "verif_faults::P_COMMIT, 0"), ("point", "verif_faults::P_COMMITTED, 0")]
     points_top = top == expected
     if points_top:
-        # each point directly in front of (behind) its statement
+        # each point directly in front of (behind) its statement, and leaving through the same kind of exit
         t = norm(body)
+        RB = r' \{ conn\.execute\("ROLLBACK", \[\]\)\?; return Err\(e\); \}'
+        front = lambda pt, stmt, rb: (r"if let Err\(e\) = verif_faults::point\(verif_faults::%s, 0\)%s if let Err\(e\) = %s%s" % (pt, RB, stmt, RB)) if rb \
+            else (r"verif_faults::point\(verif_faults::%s, 0\)\?; %s\?;" % (pt, stmt))
         points_top = bool(re.search(r'verif_faults::point\(verif_faults::P_BEGIN, 0\)\?; conn\.execute\("BEGIN TRANSACTION"', t)
-                          and re.search(r"verif_faults::point\(verif_faults::P_MARKS, 0\)\?; daily_log\.write\(conn\)", t)
-                          and re.search(r'verif_faults::point\(verif_faults::P_COMMIT, 0\)\?; conn\.execute\("COMMIT", \[\]\)\?; #\[cfg\(feature = "verif"\)\] verif_faults::point\(verif_faults::P_COMMITTED, 0\)\?;', t))
+                          and re.search(front("P_MARKS", r"daily_log\.write\(conn\)", marks_rollback), t)
+                          and re.search(front("P_COMMIT", r'conn\.execute\("COMMIT", \[\]\)', commit_rollback) +
+                                        r' #\[cfg\(feature = "verif"\)\] verif_faults::point\(verif_faults::P_COMMITTED, 0\)\?;', t))
     return seq, arms, marks_rollback, commit_rollback, points_top
 
 
